@@ -170,6 +170,55 @@ pub fn kh_dd_zero_q(s: &mut Src) -> R {
     }
     Ok(())
 }
+// C05 / C01 over the UNIVERSAL ring Z[H, T] (BOUNDED, sampled): the complex built with h = H, t = T is a chain complex (d d = 0), d is
+// homogeneous of q-degree 0 with deg H = -2, deg T = -4, and specialising its differentials at integers (h, t) gives the homology of the
+// complex built directly over Z with (h, t).  This is the only place where products of *different* variables (H.T, T.T) of the bivariate
+// monomials enter the Khovanov code.
+pub fn kh_universal_ht(s: &mut Src) -> R {
+    use yui::poly::{Poly2, Mono};
+    use yui_link::Link;
+    use yui_kh::kh::{KhComplex, KhChain};
+    use yui_homology::{ChainComplexTrait, GridTrait, SummandTrait, GenericChainComplex};
+    use yui_matrix::sparse::SpMat;
+    use yui_matrix::MatTrait;
+    type P = Poly2<'H', 'T', i64>;
+    let names = ["3_1", "4_1", "5_2", "6_2", "7_7", "8_19"];
+    let which = s.small(0, 5) as usize;
+    let mirror = s.small(0, 1) == 1;
+    let (h0, t0) = (s.small(-2, 2), s.small(-2, 2));
+    reach!();
+    let l = Link::load(names[which]).map_err(|e| format!("load: {e}"))?;
+    let l = if mirror { l.mirror() } else { l };
+    let (h, t) = (P::variable(0), P::variable(1));
+    let c = KhComplex::<P>::new(&l, &h, &t, false);
+    for i in c.support() {
+        for x in c[i].raw_gens().iter() {
+            let z = KhChain::<P>::from(x.clone());
+            let dz = c.d(i, &z);
+            ob!(c.d(i + 1, &dz).is_zero(), "KhComplex(Z[H,T])::d(d(x))==0");
+            for (y, p) in dz.iter() {
+                ob!(y.h_deg() == x.h_deg() + 1, "KhComplex(Z[H,T])::d-raises-h-degree-by-one");
+                for (m, _) in p.iter() {
+                    let (a, b) = (m.deg().0 as isize, m.deg().1 as isize);
+                    ob!(y.q_deg() - 2 * a - 4 * b == x.q_deg(), "KhComplex(Z[H,T])::d-is-q-homogeneous");
+                }
+            }
+        }
+    }
+    // specialise at (h0, t0) and compare ranks / torsion with the direct build
+    let spec = |d: &SpMat<P>| SpMat::from_entries(d.shape(), d.iter().map(|(i, j, p)| (i, j, p.eval(&h0, &t0))));
+    let sup: Vec<isize> = c.support().collect();
+    let (lo, hi) = (*sup.first().unwrap(), *sup.last().unwrap());
+    let g = GenericChainComplex::<i64>::generate(lo..=hi, 1, |i| spec(&c.d_matrix(i)));
+    let hs = g.homology();
+    let direct = KhComplex::<i64>::new(&l, &h0, &t0, false).homology();
+    for i in lo..=hi {
+        let norm = |t: &[i64]| { let mut t: Vec<i64> = t.iter().map(|x| x.abs()).collect(); t.sort(); t };
+        ob!(hs[i].rank() == direct[i].rank() && norm(hs[i].tors()) == norm(direct[i].tors()), "KhComplex(Z[H,T])::specialised-at-(h,t)-has-the-homology-of-the-direct-build");
+    }
+    Ok(())
+}
+
 // C04 end to end (BOUNDED, sampled): the graded Euler characteristic of the bigraded Khovanov homology over Z at h = t = 0,
 // sum (-1)^i rank H^{i,j} q^j, is the (unnormalised) Jones polynomial computed from the state sum.  Links: closures of random braid words
 // on 2..3 strands with up to 5 letters (every strand touched; multi-component links included) and their mirrors.
@@ -232,4 +281,4 @@ pub fn kh_ss_invariance(s: &mut Src) -> R {
     ob!(ss_invariant(&l0.mirror(), &c, true) == -s0 && ss_invariant(&l1.mirror(), &c, false) == -s0, "ss_invariant::mirror-negates");
     Ok(())
 }
-crate::harness_table!(COB: cob_closed_eval [unwind 8], cob_open_part_eval [unwind 8], cob_lc_inv [unwind 4], kh_canon_cycles [unwind 4], kh_dd_zero_q [unwind 4], kh_euler_jones [unwind 4], kh_ss_invariance [unwind 4]);
+crate::harness_table!(COB: cob_closed_eval [unwind 8], cob_open_part_eval [unwind 8], cob_lc_inv [unwind 4], kh_canon_cycles [unwind 4], kh_dd_zero_q [unwind 4], kh_euler_jones [unwind 4], kh_ss_invariance [unwind 4], kh_universal_ht [unwind 4]);
